@@ -316,6 +316,280 @@ do_email (long *v, int nv)
 }
 
 /* ------------------------------------------------------------------ */
+/* kind 9: policy with a caller-installed callback.  [9, modeEnum, mask, rc, eret, eerr] */
+static int cb_rc;
+static eav_result_t *
+cb_fixed (const char *email, size_t length, bool tld_check)
+{
+    eav_result_t *r = calloc (1, sizeof *r);
+    (void) email; (void) length; (void) tld_check;
+    if (!r) die ("oom");
+    r->rc = cb_rc;
+    return r;
+}
+
+static void
+do_policy (long *v, int nv)
+{
+    eav_t ev;
+    int ret, err;
+    const char *msg;
+    long in[3];
+    if (nv != 6) die ("bad policy vector");
+    in[0] = v[1]; in[1] = v[2]; in[2] = v[3];
+    eav_init (&ev);
+    ev.rfc = (EAV_RFC) v[1];
+    ev.allow_tld = (int) v[2];
+    if (eav_setup (&ev) != 0) die ("setup");
+    /* the callback fields are public: install one that returns the wanted result code */
+    if (ev.utf8) ev.utf8_cb = (eav_utf8_f) cb_fixed; else ev.ascii_cb = cb_fixed;
+    cb_rc = (int) v[3];
+    ret = eav_is_email (&ev, "x", 1);
+    err = ev.errcode;
+    msg = eav_errstr (&ev);
+    cnt.calls++; cnt.checked++; cnt.pinned++;
+    if (ret != v[4] || err != v[5])
+        viol ("policy", "callback", (int) v[1], (int) v[2], in, 3, v[4] * 100 + v[5], ret * 100 + err, v[3]);
+    else if (msg == NULL || (ret == 0 && !*msg))
+        viol ("policy", "message", (int) v[1], (int) v[2], in, 3, 0, err, v[3]);
+    eav_free (&ev);
+}
+
+/* kind 10: defaults of eav_init.  [10, rfc, tld, allow] */
+static void
+do_defaults (long *v, int nv)
+{
+    eav_t ev;
+    long in[3];
+    if (nv != 4) die ("bad defaults vector");
+    memset (&ev, 0xa5, sizeof ev);
+    eav_init (&ev);
+    in[0] = ev.rfc; in[1] = ev.tld_check; in[2] = ev.allow_tld;
+    cnt.calls++; cnt.checked++; cnt.pinned++;
+    if (ev.rfc != v[1] || ev.tld_check != v[2] || ev.allow_tld != v[3])
+        viol ("policy", "defaults", 0, 0, in, 3, v[3], ev.allow_tld, ev.rfc);
+}
+
+/* kind 11: policy on a real address.  [11, modeEnum, tld, mask, n, bytes.., pinned, eret, eerr] */
+static void
+do_policy_addr (long *v, int nv)
+{
+    eav_t ev;
+    int n = (int) v[4], ret, err, pinned, eret, eerr;
+    const long *b = v + 5;
+    const char *p;
+    if (nv != 5 + n + 3) die ("bad policy-addr vector");
+    pinned = (int) v[5 + n]; eret = (int) v[6 + n]; eerr = (int) v[7 + n];
+    eav_init (&ev);
+    ev.rfc = (EAV_RFC) v[1];
+    ev.tld_check = v[2] != 0;
+    ev.allow_tld = (int) v[3];
+    if (eav_setup (&ev) != 0) die ("setup");
+    p = place (b, n, 0, -1);
+    ret = eav_is_email (&ev, p, n);
+    unplace ();
+    err = ev.errcode;
+    cnt.calls++; cnt.checked++; cnt.pinned += pinned;
+    if (ret != eret || err != eerr) {
+        /* the policy pins the decision and the class error; which syntax error is reported is not its business */
+        int policy_err = (eerr == 0 || eerr >= EEAV_TLD_NOT_ASSIGNED || err == 0 || err >= EEAV_TLD_NOT_ASSIGNED);
+        if (pinned && !(v[1] == 3 && err == EEAV_IDN_ERROR) && (ret != eret || policy_err))
+            viol ("policy", "address", (int) v[1], (int) (v[3] * 2 + v[2]), b, n, eret * 100 + eerr, ret * 100 + err, 0);
+        else
+            drift_ev ("policy", (int) v[1], (int) (v[3] * 2 + v[2]), b, n, ret * 100 + err, eret * 100 + eerr);
+    }
+    eav_free (&ev);
+}
+
+/* ------------------------------------------------------------------ */
+/* kind 8: pool entry [8, idx, n, bytes..];  kind 7: history [7, nsteps, 11 ints per step]
+ * step = op, a1, a2, obs1, obs2, errcode, rc, flags, confirmed mode, tld, allow
+ * op: 1 init 2 set rfc 3 set tld_check 4 set allow_tld 5 setup 6 is_email(pool idx, fault) 7 errstr 8 free */
+#define POOL_MAX 4096
+static unsigned char *pool_b[POOL_MAX];
+static int pool_n[POOL_MAX];
+#ifdef VERIF_WRAP
+extern int wrap_fault_code, wrap_fault_buffer, wrap_track;   /* see wrap.c */
+extern long wrap_bad_free, wrap_conv_calls;
+extern long wrap_live_allocs (void);
+extern void wrap_reset (void);
+#endif
+
+static void
+do_pool (long *v, int nv)
+{
+    int idx = (int) v[1], n = (int) v[2];
+    if (nv != 3 + n || idx < 0 || idx >= POOL_MAX) die ("bad pool vector");
+    free (pool_b[idx]);
+    pool_b[idx] = malloc (n + 1);
+    for (int i = 0; i < n; i++) pool_b[idx][i] = (unsigned char) v[3 + i];
+    pool_b[idx][n] = 0;
+    pool_n[idx] = n;
+}
+
+static int
+res_flags (const eav_result_t *r)
+{
+    return (r->is_ipv4 ? 1 : 0) | (r->is_ipv6 ? 2 : 0) | (r->is_domain ? 4 : 0);
+}
+
+static int
+mode_enum (int mode)
+{
+    return mode == 822 ? 0 : mode == 5321 ? 1 : mode == 5322 ? 2 : 3;
+}
+
+static void
+hist_viol (const char *what, const long *v, int nsteps, int at, long exp, long got, long extra)
+{
+    long buf[1 + 11 * 64];
+    int k = 0;
+    buf[k++] = at;
+    for (int i = 0; i < nsteps * 11 && k < (int) (sizeof buf / sizeof buf[0]); i++) buf[k++] = v[2 + i];
+    viol ("history", what, 0, at, buf, k, exp, got, extra);
+}
+
+static void
+do_history (long *v, int nv)
+{
+    int nsteps = (int) v[1];
+    eav_t *ev = malloc (sizeof *ev);          /* uninitialised heap object, as the documentation allows */
+    int live = 0;
+    char lastmsg[256] = "";
+    if (nv != 2 + nsteps * 11) die ("bad history vector");
+#ifdef VERIF_WRAP
+    wrap_reset ();
+    wrap_track = 1;
+    wrap_fault_buffer = (int) (cnt.vectors & 1);      /* alternate: failing converter with / without a buffer */
+#endif
+    for (int k = 0; k < nsteps; k++) {
+        const long *s = v + 2 + 11 * k;
+        int op = (int) s[0];
+        cnt.calls++;
+        switch (op) {
+        case 1: eav_init (ev); live = 1; break;
+        case 2: ev->rfc = (EAV_RFC) s[1]; break;
+        case 3: ev->tld_check = s[1] != 0; break;
+        case 4: ev->allow_tld = (int) s[1]; break;
+        case 5: {
+            int r = eav_setup (ev);
+            cnt.checked++; cnt.pinned++;
+            if (r != s[3]) hist_viol ("setup return", v, nsteps, k, s[3], r, ev->rfc);
+        } break;
+        case 6: {
+            int idx = (int) s[1], fault = (int) s[2], ret, err, rc, fl;
+            const char *p, *msg;
+            eav_t fr;
+            int fret, ferr, frc, ffl;
+            const char *fmsg;
+#ifdef VERIF_WRAP
+            wrap_fault_code = fault;
+#else
+            if (fault != 0) die ("fault plan needs the wrap build");
+#endif
+            p = place_bytes (pool_b[idx], pool_n[idx], k & 1);
+            ret = eav_is_email (ev, p, pool_n[idx]);
+            err = ev->errcode; rc = ev->result->rc; fl = res_flags (ev->result);
+            msg = eav_errstr (ev);
+            snprintf (lastmsg, sizeof lastmsg, "%s", msg ? msg : "(null)");
+            /* C13: the same call on a fresh object with the same settings */
+            eav_init (&fr);
+            fr.rfc = (EAV_RFC) mode_enum ((int) s[8]);
+            fr.tld_check = s[9] != 0;
+            fr.allow_tld = (int) s[10];
+            if (eav_setup (&fr) != 0) die ("fresh setup");
+#ifdef VERIF_WRAP
+            wrap_fault_code = fault;
+#endif
+            fret = eav_is_email (&fr, p, pool_n[idx]);
+            ferr = fr.errcode; frc = fr.result->rc; ffl = res_flags (fr.result);
+            fmsg = eav_errstr (&fr);
+            unplace ();
+            cnt.checked++; cnt.pinned++;
+            if (ret != fret || err != ferr || rc != frc || fl != ffl || strcmp (msg ? msg : "(null)", fmsg ? fmsg : "(null)") != 0)
+                hist_viol ("outcome differs from a fresh object with the same settings", v, nsteps, k, fret * 100 + ferr, ret * 100 + err, rc);
+            else if ((ret == 1) != (err == 0) || (rc < 0 && err != -rc) || msg == NULL || (ret == 0 && !*msg))
+                hist_viol ("diagnostics inconsistent", v, nsteps, k, ret, err, rc);
+            else if (fault != 0 && rc == -EEAV_IDN_ERROR
+                     && (ev->result->idn_rc != fault || fl != 0 || strcmp (msg, idn2_strerror (fault)) != 0))
+                hist_viol ("IDN failure not reported with the library's message", v, nsteps, k, fault, ev->result->idn_rc, fl);
+            else if (ret != s[3] || err != s[5] || rc != s[6] || fl != s[7]) {
+                cnt.drift++;
+                fprintf (f_drift, "{\"e\":\"hist\",\"step\":%d,\"idx\":%d,\"fault\":%d,\"ret\":%d,\"err\":%d,\"rc\":%d,\"fl\":%d,"
+                         "\"mret\":%ld,\"merr\":%ld,\"mrc\":%ld,\"mfl\":%ld}\n", k, idx, fault, ret, err, rc, fl, s[3], s[5], s[6], s[7]);
+            }
+            eav_free (&fr);
+#ifdef VERIF_WRAP
+            wrap_fault_code = 0;
+#endif
+        } break;
+        case 7: {
+            const char *msg = eav_errstr (ev);
+            cnt.checked++; cnt.pinned++;
+            if (msg == NULL)
+                hist_viol ("errstr NULL", v, nsteps, k, 0, 0, 0);
+            else if (s[3] == EEAV_INVALID_RFC) {      /* after a refused eav_setup: must report the invalid-RFC condition */
+                if (!strcasestr (msg, "rfc")) hist_viol ("errstr after refused setup", v, nsteps, k, EEAV_INVALID_RFC, ev->errcode, 0);
+            }
+            else if (lastmsg[0] && strcmp (msg, lastmsg) != 0)
+                hist_viol ("errstr does not describe the most recent validation", v, nsteps, k, s[3], ev->errcode, 0);
+            else if (ev->errcode != s[3]) {
+                cnt.drift++;
+                fprintf (f_drift, "{\"e\":\"hist\",\"step\":%d,\"errstr\":%d,\"merr\":%ld}\n", k, ev->errcode, s[3]);
+            }
+        } break;
+        case 8: eav_free (ev); live = 0; lastmsg[0] = 0; break;
+        default: die ("bad op");
+        }
+        if (op == 5 && s[3] != 0) snprintf (lastmsg, sizeof lastmsg, "%s", "");
+        if (op == 1) lastmsg[0] = 0;
+    }
+    if (live) eav_free (ev);
+#ifdef VERIF_WRAP
+    wrap_track = 0;
+    cnt.checked++; cnt.pinned++;
+    if (wrap_live_allocs () != 0)
+        hist_viol ("allocation not released after eav_free", v, nsteps, nsteps, 0, wrap_live_allocs (), 0);
+    if (wrap_bad_free != 0)
+        hist_viol ("release of memory that is not live (double free)", v, nsteps, nsteps, 0, wrap_bad_free, 0);
+#endif
+    free (ev);
+}
+
+/* ------------------------------------------------------------------ */
+/* kind 13: robustness vector [13, shape, n, bytes..]: every public entry point on the string, both
+ * placements, no expectation - the monitors (guard pages, sanitizers, valgrind, alarm) are the check.
+ * kind 14: the same without the IDN converter (its cost is the environment's), for instruction counting. */
+static long sink;
+static void
+do_robust (long *v, int nv, int with_idn)
+{
+    int n = (int) v[2];
+    const long *b = v + 3;
+    if (nv != 3 + n) die ("bad robust vector");
+    alarm (with_idn ? 120 : 60);
+    for (int side = 0; side < 2; side++) {
+        const char *p = place (b, n, side, -1), *e = p + n;
+        int idn = 0;
+        for (int m = 0; m < 4; m++) sink += locals[m].f (p, e);
+        sink += is_ascii_domain (p, e);
+        sink += is_ipv4 (p, e) + is_ipv6 (p, e) + is_ipaddr (p, e);
+        sink += is_special_domain (p, e);
+        sink += is_tld (p, e);
+        if (with_idn) sink += is_utf8_domain (&idn, p, e, true);
+        for (int m = 0; m < (with_idn ? 4 : 3); m++) for (int tld = 0; tld < 2; tld++) {
+            eav_result_t *r = emails[m].f (p, n, tld);
+            sink += r->rc;
+            eav_result_free (r);
+        }
+        unplace ();
+        cnt.calls += 20;
+    }
+    alarm (0);
+    cnt.checked++;
+}
+
+/* ------------------------------------------------------------------ */
 int
 main (int argc, char **argv)
 {
@@ -337,9 +611,19 @@ main (int argc, char **argv)
         case 2: do_host (v, nv); break;
         case 3: do_ip (v, nv); break;
         case 5: do_email (v, nv); break;
+        case 7: do_history (v, nv); break;
+        case 8: do_pool (v, nv); break;
+        case 9: do_policy (v, nv); break;
+        case 13: do_robust (v, nv, 1); break;
+        case 14: do_robust (v, nv, 0); break;
+        case 10: do_defaults (v, nv); break;
+        case 11: do_policy_addr (v, nv); break;
         default: die ("unknown vector kind");
         }
     }
     common_finish ();
+    free (line);
+    free (v);
+    for (int i = 0; i < POOL_MAX; i++) free (pool_b[i]);
     return 0;
 }
